@@ -179,6 +179,153 @@ def use2(x):
     return 0
 ''', ['use(1)', 'use(7)', 'use2(1)', 'use2(9)'])
 
+
+# dispatch dict of bound methods (get + None test), generator helper consumed by for/yield, star-args tuple
+case('''
+LOG = []
+class S(object):
+    def __init__(self): self.ready = False
+    def _h_ready(self, ev, ap): LOG.append('ready'); self.ready = True
+    def _h_ping(self, ev, ap):
+        if ap:
+            LOG.append(('pong', ev))
+    def on_event(self, ev, ap):
+        handlers = {'ready': self._h_ready, 'ping': self._h_ping}
+        handler = handlers.get(ev)
+        if handler is not None:
+            handler(ev, ap)
+    def _unresp(self, t):
+        yield 'unresponsive'
+        raise RuntimeError('exceeded %s' % t)
+    def _gate(self, a, b):
+        if self.ready:
+            evs = self.work(a, b)
+        else:
+            evs = ()
+        return evs
+    def work(self, a, b):
+        yield ('w', a, b)
+    def regular(self, t, late):
+        yield 'poll'
+        if late:
+            for e in self._unresp(t):
+                yield e
+    def run(self, a, b):
+        args = (a, b)
+        out = []
+        for e in self._gate(*args):
+            out.append(e)
+        return out
+def t(ev, ap, late):
+    s = S(); s.on_event(ev, ap); r = s.run(1, 2)
+    try:
+        evs = list(s.regular(5, late))
+    except RuntimeError as e:
+        evs = ['RT', str(e)]
+    return r, evs, list(LOG)
+''', ['t("ready", True, False)', 't("ping", True, True)', 't("ping", False, False)', 't("other", True, True)'])
+
+# dict of constructors with try/except KeyError and a continuation to thread
+case('''
+class B(object):
+    def __init__(self, p): self.p = p
+    def __repr__(self): return 'B(%r)' % (self.p,)
+class T(B):
+    @classmethod
+    def from_payload(cls, p):
+        if p == b'bad': raise ValueError('bad')
+        return cls(p.decode())
+def build(op, payload):
+    ctors = {1: B, 2: T.from_payload}
+    try:
+        ctor = ctors[op]
+    except (KeyError, TypeError):
+        return ('plain', op)
+    return ctor(payload)
+def t(op, p):
+    return repr(build(op, p))
+''', ['t(1, b"x")', 't(2, b"y")', 't(2, b"bad")', 't(3, b"")'])
+
+# tuple-returning helper, flag tested afterwards (threaded), generator caller
+case('''
+class E(object):
+    def __init__(self, r): self.r = r
+    def __repr__(self): return 'E(%r)' % self.r
+class R(object):
+    def __init__(self, plan): self.plan = plan; self.closed = 0
+    def conn(self):
+        if self.plan == 'fail': raise OSError('nope')
+        return 'sock', 'proxy'
+    def req(self):
+        if self.plan == 'reqfail': raise KeyError('req')
+    def _open(self, url):
+        try:
+            sock, proxy = self.conn()
+        except OSError as error:
+            return None, None, E('%s' % error)
+        try:
+            self.req()
+        except KeyError as error:
+            self.closed += 1
+            return None, None, E('request failed; %s' % error)
+        return sock, proxy, None
+    def run(self, url):
+        yield 'connecting'
+        sock, proxy, fail = self._open(url)
+        if fail is not None:
+            yield fail
+            return
+        yield ('connected', sock, proxy)
+def t(plan):
+    r = R(plan)
+    return [repr(x) for x in r.run('u')], r.closed
+''', ['t("ok")', 't("fail")', 't("reqfail")'])
+
+# table-driven checks: loop over constant tuple of (lambda, message), getattr over names
+case('''
+class F(object):
+    def __init__(self, **kw): self.__dict__.update(dict(op=1, fin=1, rsv1=0, rsv2=0, rsv3=0), **kw)
+    _CHECKS = (
+        (lambda f: f.op > 10, 'reserved'),
+        (lambda f: f.op >= 8 and not f.fin, 'fragmented control'),
+    )
+    def validate(self):
+        for cond, msg in self._CHECKS:
+            if cond(self):
+                raise ValueError(msg)
+        for name in ('rsv1', 'rsv2', 'rsv3'):
+            if getattr(self, name):
+                raise KeyError(name)
+        return 'ok'
+def t(**kw):
+    return F(**kw).validate()
+''', ['t()', 't(op=11)', 't(op=9, fin=0)', 't(rsv2=1)', 't(op=12, rsv1=1)'])
+
+
+# flag-valued returns
+case('''
+class C(object):
+    def __init__(self): self.start = None; self.now = 0
+    def check(self, poll):
+        due = False
+        if poll:
+            if self.start is None or self.now - self.start >= poll:
+                self.start = self.now
+                due = True
+        return due
+    def timed(self, t, last):
+        out = False
+        if t:
+            if self.now - last > t:
+                out = True
+            else:
+                out = False
+        return not out
+def t(poll, now, start, tt, last):
+    c = C(); c.now = now; c.start = start
+    return c.check(poll), c.start, c.timed(tt, last)
+''', ['t(0, 5, None, 0, 0)', 't(5, 5, None, 3, 1)', 't(5, 7, 5, 3, 6)', 't(5, 11, 5, 10, 0)'], expect_inlined=True)
+
 # must NOT be inlined: return inside a loop, generator helper, recursion
 case('''
 class N(object):
@@ -231,7 +378,15 @@ def main():
                 if isinstance(s, ast.FunctionDef) and s.name not in ('helper',):
                     known.add('m.' + s.name)
             inl.KNOWN = frozenset(known)
-            log = inl.Inliner({'m': FakeMod('m', tree)}).run()
+            from lomondsa import normalise
+            mods = {'m': FakeMod('m', tree)}
+            log = []
+            for _round in range(5):
+                ch = normalise.simple_passes(mods, log)
+                l2 = inl.Inliner(mods).run()
+                log.extend(l2)
+                if not ch and not l2:
+                    break
             after = run_module(tree, calls)
             ok = before == after and (bool(log) == expect)
             print('case %d: %s  inlined=%d %s' % (i, 'ok' if ok else 'MISMATCH', len(log), '' if ok else (before, after, log)))
